@@ -64,11 +64,11 @@ D = {  # id: (caught_by, first_run, strengthening)
  "C14_4": (["C11", "C14"], "broken tie only for C14 (C11 concrete)", "vlib/props/c14.py: layouts with the same page mapped several times + text_complete clause; corpus/C14/same_page_same_offset.json"),
  "C16_3": (["C16", "C11"], "caught", None),
  "C16_4": (["C16"], "caught", None),
- "C17_3": ([], "missed", "pending with its owner: scans with module user data (set_module_data) and value-vs-declared-type conformance"),
+ "C17_3": (["C17"], "missed", "harness/src/bin/c17.rs + vlib/props/c17.py: module user data through Scanner::set_module_data (PeData is_signed, ConsoleData), probes consuming the value as its declared type; corpus witnesses"),
  "C17_4": (["C17"], "caught", None),
  "C18_3": (["C18"], "caught", None),
  "C18_4": (["C18"], "caught", None),
- "C20_3": ([], "missed", "pending with its owner: the same relative include string in files of different directories"),
+ "C20_3": (["C20"], "missed", "vlib/props/c20.py: shape `samename` — the same directive text in files of different directories resolving to different (or the same) files, in one graph or over several calls on one compiler; corpus witnesses"),
  "C20_4": (["C20"], "caught", None),
  "C07_1": (["C07"], "caught at one seed in three", "vlib/props/c07.py: generator atom `for K of (set) : (<N of (set2)> and/or <anonymous reference>)`; corpus replay"),
  "C07_2": (["C07"], "caught at one seed in three", "vlib/props/c07.py: string family of class-only single-length fullword regexes (raw path) with members placed end to end after an alphanumeric byte; corpus replay"),
